@@ -330,6 +330,62 @@ Gen<Case> gen_case() {
                                     return std::get<2>(t) + s;
                                 }),
                        "exact-tie");
+    // 7b ties and near-ties whose rounding carries into the next power of two (mantissa all ones -> 1.000 x 2^(k+1))
+    auto carry = finish(gen::map(gen::tuple(pbt::range<int>(-60, 80), pbt::range<int>(0, 4), pbt::range<int>(0, 1), sign_gen()),
+                                 [](std::tuple<int, int, int, std::string> t) {
+                                     double      p2    = std::ldexp(1.0, std::get<0>(t));
+                                     double      below = std::nextafter(p2, 0.0);           // 1.111...1 x 2^(k-1)
+                                     std::string plain = bigdec::midpoint_above(below);     // exact tie between `below` and 2^k
+                                     switch (std::get<1>(t)) {
+                                         case 0: break;                                       // the tie itself (round to even = 2^k)
+                                         case 1: plain += (plain.find('.') == std::string::npos) ? ".0001" : "0001"; break; // just above -> 2^k
+                                         case 2: {                                            // just below -> `below`
+                                             if (plain.find('.') == std::string::npos) {
+                                                 plain += ".0";
+                                             }
+                                             size_t i = plain.size() - 1;                     // the expansion ends in ...5 (or .0 appended)
+                                             while (plain[i] == '0' || plain[i] == '.') {
+                                                 --i;
+                                             }
+                                             plain[i] = char(plain[i] - 1);
+                                             plain += "9999";
+                                             break;
+                                         }
+                                         case 3: { // 17 significant digits of `below` rounded up by one unit in the 17th place
+                                             char b[64];
+                                             snprintf(b, sizeof b, "%.17g", below);
+                                             plain = b;
+                                             break;
+                                         }
+                                         default: { // 2^k itself written with 20 digits
+                                             char b[64];
+                                             snprintf(b, sizeof b, "%.20g", p2);
+                                             plain = b;
+                                         }
+                                     }
+                                     if (std::get<2>(t) && plain.find('e') == std::string::npos) {
+                                         plain = bigdec::to_scientific(plain);
+                                     }
+                                     return std::get<3>(t) + plain;
+                                 }),
+                        "carry-into-power-of-two");
+    // 7c long runs of nines (1.9999999999999999, 1023.99999999999999, 19999999999999999e-16 ...)
+    auto nines = finish(gen::map(gen::tuple(pbt::range<int>(0, 3), pbt::range<int>(14, 22), pbt::range<int>(0, 20), pbt::range<int>(-20, 20), pbt::range<int>(0, 2), sign_gen()),
+                                 [](std::tuple<int, int, int, int, int, std::string> t) {
+                                     static const char *heads[] = {"1", "3", "1023", "4294967295"};
+                                     std::string         digits = std::string(heads[std::get<0>(t)]) + std::string(size_t(std::get<1>(t)), '9');
+                                     size_t              point  = 1 + size_t(std::get<2>(t)) % digits.size();
+                                     std::string         s;
+                                     if (std::get<4>(t) == 0) {
+                                         s = digits.substr(0, point) + (point < digits.size() ? "." + digits.substr(point) : "");
+                                     } else if (std::get<4>(t) == 1) {
+                                         s = digits + "e" + std::to_string(std::get<3>(t) - int(digits.size()) + 1);
+                                     } else {
+                                         s = digits.substr(0, 1) + "." + digits.substr(1) + "E" + std::to_string(std::get<3>(t));
+                                     }
+                                     return std::get<5>(t) + s;
+                                 }),
+                        "nine-run");
     // 8 around the overflow threshold and beyond
     auto overflow = finish(gen::map(gen::tuple(sign_gen(), digits_gen(1, 20, true), pbt::range<int>(285, 340), pbt::range<int>(0, 1)),
                                     [](std::tuple<std::string, std::string, int, int> t) {
@@ -366,8 +422,8 @@ Gen<Case> gen_case() {
                      return std::get<0>(t) + m;
                  }),
         "malformed", 1);
-    return gen::oneOf(ints, bounds, decimals, decimals, intexp, longs, leadzeros, spelled, spelled, ties, overflow, overflow_plain, subnormal, zeros,
-                      malformed);
+    return gen::oneOf(ints, bounds, decimals, decimals, intexp, longs, leadzeros, spelled, spelled, ties, carry, nines, overflow, overflow_plain, subnormal,
+                      zeros, malformed);
 }
 
 struct H {
